@@ -478,14 +478,16 @@ func registerExterns(w *World) {
 	w.ext("(*bufio.Reader).ReadString", bufioDoc, externReadString)
 	w.ext("(*bufio.Reader).ReadBytes", bufioDoc+" ReadBytes is ReadString returning a fresh byte slice with the same content.", externReadString)
 	w.ext("(*bufio.Reader).ReadSlice", bufioSliceDoc, externReadSlice)
+	w.ext("github.com/cenkalti/backoff/v4.NewExponentialBackOff", "backoff.NewExponentialBackOff: fresh non-nil back-off policy (opaque)", func(ex *Exec, st *State, c *callCtx) {
+		r := st.allocRef("backoff")
+		c.k(st, term(r, c.fn.Signature.Results().At(0).Type()))
+	})
 	w.ext("path/filepath.Join", "filepath.Join(a, b): an uninterpreted function pathjoin of its two arguments (other arities: opaque string)", func(ex *Exec, st *State, c *callCtx) {
-		if len(c.args) == 1 && c.args[0].K == KSlice {
-			if n, ok := isIntLit(c.args[0].Fs[2].T); ok && n == 2 {
-				ex.declareFunRaw("pathjoin", "(String String) String")
-				a, b := st.sliceGet(c.args[0], "0"), st.sliceGet(c.args[0], "1")
-				c.k(st, term("(pathjoin "+a.T+" "+b.T+")", tString))
-				return
-			}
+		if len(c.args) == 1 && c.args[0].K == KArray && len(c.args[0].Fs) == 2 {
+			ex.declareFunRaw("pathjoin", "(String String) String")
+			a, b := c.args[0].Fs[0], c.args[0].Fs[1]
+			c.k(st, term("(pathjoin "+ex.asTerm(a)+" "+ex.asTerm(b)+")", tString))
+			return
 		}
 		externPure(ex, st, c)
 	})
